@@ -335,6 +335,8 @@ class FDE:
                         env[nm] = Opaque('module ' + nm)
             elif isinstance(s, ast.For):
                 it = self._ev(s.iter, env, fi)
+                if isinstance(it, (dict, set)):
+                    it = list(it)
                 if not isinstance(it, (list, tuple)):
                     raise Unsupported('for over non-concrete iterable: %s' % unparse(s.iter))
                 broke = False
@@ -615,6 +617,8 @@ class FDE:
         if isinstance(e, (ast.GeneratorExp, ast.ListComp)) and len(e.generators) == 1 and not e.generators[0].is_async:
             gen = e.generators[0]
             it = self._ev(gen.iter, env, fi)
+            if isinstance(it, (dict, set)):
+                it = list(it)
             if not isinstance(it, (list, tuple)):
                 raise Unsupported('comprehension over non-concrete iterable: ' + unparse(gen.iter))
             out = []
@@ -627,6 +631,8 @@ class FDE:
         if isinstance(e, (ast.DictComp, ast.SetComp)) and len(e.generators) == 1 and not e.generators[0].is_async:
             gen = e.generators[0]
             it = self._ev(gen.iter, env, fi)
+            if isinstance(it, (dict, set)):
+                it = list(it)
             if not isinstance(it, (list, tuple)):
                 raise Unsupported('comprehension over non-concrete iterable: ' + unparse(gen.iter))
             out = {} if isinstance(e, ast.DictComp) else set()
@@ -705,6 +711,14 @@ class FDE:
                 kwargs.update(v)
             else:
                 kwargs[k.arg] = self._ev(k.value, env, fi)
+        if unparse(f) in ('itertools.takewhile', 'takewhile', 'itertools.dropwhile', 'dropwhile', 'filter', 'map') and len(args) == 2 and isinstance(args[1], (list, tuple)) \
+                and not (isinstance(f, ast.Name) and f.id in env):
+            import itertools
+            fn = {'takewhile': itertools.takewhile, 'dropwhile': itertools.dropwhile, 'filter': filter, 'map': map}[unparse(f).split('.')[-1]]
+            pred = self.as_callable(args[0])
+            if fn is map:
+                return [pred(x) for x in args[1]]
+            return list(fn(lambda x: self._truth(pred(x)), args[1]))
         if isinstance(f, ast.Name):
             n = f.id
             if n == 'hasattr':
@@ -805,13 +819,7 @@ class FDE:
             return self.extcalls[unparse(f)](*args, **kwargs)
         if isinstance(f, ast.Attribute) and unparse(f) in _PURE_EXTERNALS and all(isinstance(a, (str, int)) for a in args) and not kwargs:
             return _PURE_EXTERNALS[unparse(f)](*args)
-        if unparse(f) in ('itertools.takewhile', 'takewhile', 'itertools.dropwhile', 'dropwhile', 'filter', 'map') and len(args) == 2 and isinstance(args[1], (list, tuple)):
-            import itertools
-            fn = {'takewhile': itertools.takewhile, 'dropwhile': itertools.dropwhile, 'filter': filter, 'map': map}[unparse(f).split('.')[-1]]
-            pred = self.as_callable(args[0])
-            if fn is map:
-                return [pred(x) for x in args[1]]
-            return list(fn(lambda x: self._truth(pred(x)), args[1]))
+
         if isinstance(f, ast.Attribute):
             target = self._ev(f, env, fi)
             if isinstance(target, tuple) and len(target) == 2 and target[0] == 'class':
